@@ -1011,12 +1011,20 @@ func TestC44(t *testing.T) {
 		return
 	}
 	defer ks.close()
+	if mon.RaceBuild {
+		// race-detector variant: the shared-value concurrency stream only
+		concStream(m, ks)
+		concGates(m)
+		return
+	}
+	concStream(m, ks)
 	c44ExportedKeys(m, ks)
 	c44GoMade(m, ks)
 	c44GPGMade(m, ks)
 	c44RMD160(m, ks)
 	c44Tamper(m, ks)
 	c44MPILengthClasses(m, ks)
+	c44SKESK(m, ks)
 	c44WriterSplits(m, ks)
 	c44CanonHashSplits(m)
 	ks.verifyKeysUnchanged(m)
@@ -1038,4 +1046,6 @@ func TestC44(t *testing.T) {
 	c44TamperGates(m)
 	c44SplitGates(m)
 	c44MPIClassGates(m)
+	c44SKESKGates(m)
+	concGates(m)
 }
